@@ -232,7 +232,7 @@ def _rest_after_r2(ctx, core, cg, G_holder=None):
     # ------------- R4 special names
     ctx.rule("C03.R4", "every name the evaluator resolves before the environment lookup (constants, inf, infinity), `inputs`, and every reserved word is refused by the assignment arm or unparsable as an identifier", floor=8)
     hev = core.hir_fn(EVAL)
-    m = sorted(H.matches_on(hev["body"], "ast::Expr"), key=lambda m_: -len(m_["arms"]))
+    m = [x_ for x_ in [H.main_match(hev["body"], "ast::Expr")] if x_ is not None]
     if not m:
         raise CheckerError("no match on Expr in evaluate_ast")
     arms = {}
